@@ -13,7 +13,7 @@ func writeRec(c *Ctx, d Doc, fl Flags, tracks int, alsoSingle bool, extra ...str
 	r := c.crd(args, d.YAML())
 	f := smf.Parse(r.Stdout)
 	rec := Rec{"kind": "write", "doc": d.Abstract(), "flags": fl.Abstract(), "tracks": tracks,
-		"ok": r.Exit == 0 && !r.TimedOut && !r.Panic && f.Err == "" && len(r.Stdout) > 0,
+		"ok":   r.Exit == 0 && !r.TimedOut && !r.Panic && f.Err == "" && len(r.Stdout) > 0,
 		"exit": r.Exit, "terminated": !r.TimedOut, "stdoutLen": len(r.Stdout), "stderrLen": len(r.Stderr),
 		"division": f.Division, "ntracks": f.NTracks, "ev": eventsOf(f), "smfErr": f.Err,
 		"ok1": true, "ev1": [][]any{}}
